@@ -182,6 +182,7 @@ Effect(ls, op, txid, logid) ==
     [] op.k = "untxmeta" -> DelTxMeta(ls, op, logid)
     [] op.k = "acmeta"   -> SetAcctMeta(ls, op, logid)
     [] op.k = "unacmeta" -> DelAcctMeta(ls, op, logid)
+    [] op.k = "blocks"   -> Okay(ls, 0)   \* a run of the async block builder (C34): no effect on the ledger
 
 \* Import (C11, C12): replays the exported journal of a source ledger (given here as the source's state)
 \* into this ledger.  Accepted only while the ledger has never accepted a write (`used` = FALSE) and only if
